@@ -234,7 +234,7 @@ class Harness:
         """verdict_seq: one (executor, assessor) pair per run, for histories in which the agents change their minds"""
         it, obj = self.build(o, gate, breaker, cache, state, verdicts)
         runm = self.p.find_method(self.loop, "run")
-        prompt = Unknown("user_prompt")
+        prompt = Unknown("user_prompt", kind="str")
         results = []
         for i_ in range(len(verdict_seq) if verdict_seq else times):
             if verdict_seq:
